@@ -661,6 +661,10 @@ class Prefix:
             raise ValueError(f"A prefix with symbol {symbol} is already defined")
 
         if existing is not None:
+            if name and existing.name and existing.name != name:
+                raise ValueError(f"{existing!r} is already named {existing.name}")
+            if symbol and existing.symbol and existing.symbol != symbol:
+                raise ValueError(f"{existing!r} already has symbol {existing.symbol}")
             return existing
 
         self = super().__new__(cls)
